@@ -125,8 +125,24 @@ func TestC19NodeURI(t *testing.T) {
 			rt.Fatal(err)
 		}
 		hsvc := &HostSvc{}
-		c := dial(srv, hsvc.server(), srcAddr, p.CloseRemote)
-		defer c.Close()
+		// the registering side: a connection with the generated source address, or - when there is none - sometimes
+		// the in-process service (the ":memory:" pool of `vipnode host` / `vipnode agent`), which has no address at all
+		var caller jsonrpc2.Service
+		transport := "connection"
+		if src.class == "empty" && rapid.Bool().Draw(rt, "inProcess") {
+			loc := &jsonrpc2.Local{}
+			if err := loc.Server.Register("vipnode_", p); err != nil {
+				rt.Fatal(err)
+			}
+			if err := loc.Server.RegisterMethod("vipnode_whitelist", hsvc, "Whitelist"); err != nil {
+				rt.Fatal(err)
+			}
+			caller, transport = loc, "in-process"
+		} else {
+			c := dial(srv, hsvc.server(), srcAddr, p.CloseRemote)
+			defer c.Close()
+			caller = c.agentSide
+		}
 		ctx, cancel := context.WithTimeout(context.Background(), 20*time.Second)
 		defer cancel()
 
@@ -136,14 +152,17 @@ func TestC19NodeURI(t *testing.T) {
 		case "connect":
 			req := pool.ConnectRequest{VipnodeVersion: "verif", NodeURI: override, NodeInfo: ethnode.UserAgent{Kind: ethnode.Geth, IsFullNode: true, Network: 1}}
 			var resp pool.ConnectResponse
-			err = c.agentSide.Call(ctx, &resp, "vipnode_connect", mustSign(self.key, "vipnode_connect", self.nodeID, nonce, req), self.nodeID, nonce, req)
+			err = caller.Call(ctx, &resp, "vipnode_connect", mustSign(self.key, "vipnode_connect", self.nodeID, nonce, req), self.nodeID, nonce, req)
 		case "host":
 			req := pool.HostRequest{Kind: "geth", NodeURI: override}
 			var resp pool.HostResponse
-			err = c.agentSide.Call(ctx, &resp, "vipnode_host", mustSign(self.key, "vipnode_host", self.nodeID, nonce, req), self.nodeID, nonce, req)
+			err = caller.Call(ctx, &resp, "vipnode_host", mustSign(self.key, "vipnode_host", self.nodeID, nonce, req), self.nodeID, nonce, req)
 		}
 		accepted := err == nil
 
+		if transport == "in-process" {
+			srcAddr = "(in-process service, no address)"
+		}
 		cs := c19Case{Source: srcAddr, Override: override, Endpoint: endpoint, Accepted: accepted, UserClass: userClass, HostClass: oh.class, SourceClass: src.class}
 		if err != nil {
 			cs.Err = err.Error()
@@ -475,6 +494,64 @@ func TestC19Reregistration(t *testing.T) {
 			handed := map[string]string{}
 			for _, pn := range presp.Peers {
 				handed[string(pn.ID)] = pn.URI
+			}
+			// the keep-alive reply lists the client's active peers by address too: a second light client registers,
+			// the first reports it and the hosts as peers; every address in the reply must be the one of the host it names
+			c2 := nodeIdent(3)
+			cc2 := dial(srv, nil, "198.51.100.10:4001", p.CloseRemote)
+			defer cc2.Close()
+			nonce++
+			if err := cc2.agentSide.Call(ctx, &cresp, "vipnode_connect", mustSign(c2.key, "vipnode_connect", c2.nodeID, nonce, creq), c2.nodeID, nonce, creq); err != nil {
+				rt.Fatalf("second client connect: %v", err)
+			}
+			report := []string{c2.nodeID}
+			for who, w := range latest {
+				if w.isHost {
+					report = append(report, ids[who].nodeID)
+				}
+			}
+			if rapid.Bool().Draw(rt, "reportOrder") {
+				for i, j := 0, len(report)-1; i < j; i, j = i+1, j-1 {
+					report[i], report[j] = report[j], report[i]
+				}
+			}
+			ureq := pool.UpdateRequest{PeerInfo: peerInfos(report, false), BlockNumber: 3}
+			var uresp pool.UpdateResponse
+			nonce++
+			if err := cc.agentSide.Call(ctx, &uresp, "vipnode_update", mustSign(client.key, "vipnode_update", client.nodeID, nonce, ureq), client.nodeID, nonce, ureq); err != nil {
+				rt.Fatalf("client keep-alive: %v", err)
+			}
+			seenID := map[string]bool{}
+			for _, uri := range uresp.ActivePeers {
+				if uri == "" {
+					continue
+				}
+				u, err := ethnode.ParseNodeURI(uri)
+				if err != nil {
+					rt.Fatalf("keep-alive reply lists an active peer address that does not parse: %q", uri)
+				}
+				if seenID[u.ID()] {
+					rt.Fatalf("keep-alive reply lists the address of %s twice (another peer is advertised under its identity): %v\nhistory:\n  %s", nodeName(u.ID()), uresp.ActivePeers, strings.Join(hist, "\n  "))
+				}
+				seenID[u.ID()] = true
+				found := false
+				for who, w := range latest {
+					if ids[who].nodeID == u.ID() && w.isHost {
+						found = true
+						func() {
+							defer func() {
+								if r := recover(); r != nil {
+									fmt.Printf("C19 history:\n  %s\n", strings.Join(hist, "\n  "))
+									panic(r)
+								}
+							}()
+							checkAdvertised(rt, "listed in the keep-alive reply for "+ids[who].name, uri, ids[who].nodeID, w.host, w.port, w.hostKnown)
+						}()
+					}
+				}
+				if !found {
+					rt.Fatalf("keep-alive reply lists address %q, which names %s - not a host among the reported peers", uri, nodeName(u.ID()))
+				}
 			}
 			for who, w := range latest {
 				if !w.isHost {
